@@ -29,6 +29,23 @@ def main():
     res_path = os.path.join(SEEDED, "RESULTS.json")
     results = json.load(open(res_path)) if os.path.exists(res_path) else {}
     props = ["C%02d" % i for i in range(1, 19)]
+    # evidence files must describe runs on the unchanged tree: keep them aside while changes are applied
+    import shutil, tempfile
+    keep = tempfile.mkdtemp(prefix="evidence_keep_", dir=os.path.join(VERIF, "work"))
+    shutil.copytree(os.path.join(VERIF, "evidence"), os.path.join(keep, "evidence"))
+    try:
+        run(ids, results, res_path, props, run_all)
+    finally:
+        shutil.rmtree(os.path.join(VERIF, "evidence"))
+        shutil.copytree(os.path.join(keep, "evidence"), os.path.join(VERIF, "evidence"))
+        shutil.rmtree(keep)
+        sh(["git", "-C", REPO, "checkout", "--", "."])
+    # leave the generated files and the build in the state of the unchanged tree
+    sh(["/venv/bin/python", os.path.join(VERIF, "tools", "py2lean.py")])
+    sh(["lake", "build", "driver"], cwd=os.path.join(VERIF, "lean"))
+
+
+def run(ids, results, res_path, props, run_all):
     for sid in ids:
         d = os.path.join(SEEDED, sid)
         meta = json.load(open(os.path.join(d, "meta.json")))
@@ -65,9 +82,6 @@ def main():
         results[sid] = rec
         print(sid, prop, "caught" if rec.get("caught_by_own_check") else "MISSED", rec.get("caught_by"), rec.get("tests"), flush=True)
         json.dump(results, open(res_path, "w"), indent=1, sort_keys=True)
-    # leave the generated files and the build in the state of the unchanged tree
-    sh(["/venv/bin/python", os.path.join(VERIF, "tools", "py2lean.py")])
-    sh(["lake", "build", "driver"], cwd=os.path.join(VERIF, "lean"))
 
 
 if __name__ == "__main__":
